@@ -40,6 +40,8 @@ type fileConfig struct {
 	callbacks    []ConfigReloadCallback
 	mux          sync.RWMutex
 	lastLoadTime time.Time
+	// currentVersion is the running version NewConfig validated against; Reload validates against the same.
+	currentVersion []string
 }
 
 // ensure that fileConfig implements Config
@@ -644,6 +646,7 @@ func NewConfig(opts *CmdEnv, currentVersion ...string) (Config, error) {
 	}
 
 	cfg.callbacks = make([]ConfigReloadCallback, 0)
+	cfg.currentVersion = currentVersion
 
 	return cfg, err
 }
@@ -666,8 +669,9 @@ func (f *fileConfig) Reload(opts ...ReloadedConfigDataOption) error {
 	}
 
 	// reread the configs
-	cfg, err := newFileConfig(f.opts, newData.configs, newData.rules)
-	if err != nil {
+	cfg, err := newFileConfig(f.opts, newData.configs, newData.rules, f.currentVersion...)
+	// same contract as NewConfig: (nil, err) is fatal, (cfg, err) is a config that loaded with warnings only
+	if err != nil && cfg == nil {
 		return err
 	}
 
